@@ -98,19 +98,41 @@ class VLoop(asyncio.BaseEventLoop):
             self._closed = True
 
     # -- stepping ---------------------------------------------------------------------------
+    def collect_overdue(self) -> int:
+        """Timers whose deadline has *passed* (strictly) while a callback was running - a step
+        that blocked and moved the clock - become ready at the next iteration, behind what is
+        already ready: that is what asyncio's `_run_once` does.  Timers due exactly now stay with
+        the controller (it explores their tie orders)."""
+        n = 0
+        while True:
+            over = [h for h in self._scheduled if not h._cancelled and h._when < CLOCK.now]
+            if not over:
+                return n
+            h = min(over, key=lambda x: x._when)
+            self._scheduled.remove(h)
+            heapq.heapify(self._scheduled)
+            h._scheduled = False
+            self._ready.append(h)
+            n += 1
+
     def run_ready(self, max_steps: int = 20000) -> int:
-        """Run callbacks FIFO until `_ready` is empty.  Timers are NOT fired here."""
+        """Run callbacks FIFO, iteration by iteration, until `_ready` is empty.  Timers are NOT
+        fired here - except the overdue ones, which join at iteration boundaries."""
         n = 0
         ready = self._ready
-        while ready:
-            handle = ready.popleft()
-            if handle._cancelled:
-                continue
-            handle._run()
-            handle = None
-            n += 1
-            if n > max_steps:
-                raise Livelock(f"more than {max_steps} callbacks without quiescence")
+        while True:
+            self.collect_overdue()
+            if not ready:
+                break
+            for _ in range(len(ready)):  # one loop iteration
+                handle = ready.popleft()
+                if handle._cancelled:
+                    continue
+                handle._run()
+                handle = None
+                n += 1
+                if n > max_steps:
+                    raise Livelock(f"more than {max_steps} callbacks without quiescence")
         self.steps += n
         return n
 
@@ -130,6 +152,7 @@ class VLoop(asyncio.BaseEventLoop):
         they schedule (asyncio's `_run_once` takes `len(_ready)` up front)."""
         ready = self._ready
         n = 0
+        self.collect_overdue()
         for _ in range(len(ready)):
             handle = ready.popleft()
             if handle._cancelled:
